@@ -45,7 +45,7 @@ def configs(tier, rnd):
                 for wiring in ("run", "lib"):
                     for N in (2, 3):
                         for th in ("0/1", "1/2", "7/10"):
-                            if tier == "quick" and n == 1 and (N == 3 or th == "7/10"):
+                            if tier == "quick" and n == 1 and th == "7/10":  # N = 3 with one data point stays in: it exercises the resample between `_init_swarm` and the empty loop
                                 continue
                             out.append((n, kind, outl, wiring, N, th))
     n3 = []
